@@ -401,11 +401,14 @@ def selftest(ck):
 
     # 2: break one spelling in the generated corpus (environment): a folded literal gets +1 -> sibling verdict must fire
     def corrupt(w, dd):
-        p = os.path.join(dd, "u00000.c")
-        s = open(p, "rb").read()
-        s2 = re.sub(rb"\{ return (\d+); \}", lambda m: b"{ return %d; }" % (int(m.group(1)) + 1), s, count=3)
-        assert s2 != s
-        open(p, "wb").write(s2)
+        for k in range(w.units):
+            p = os.path.join(dd, "u%05d.c" % k)
+            s = open(p, "rb").read()
+            s2 = re.sub(rb"\{ return (\d+); \}", lambda m: b"{ return %d; }" % (int(m.group(1)) + 1), s, count=3)
+            if s2 != s:
+                open(p, "wb").write(s2)
+                return
+        raise AssertionError("nothing to corrupt")
     ck2 = vlib.Check("C03", "quick", 0, LEVEL)
     evaluate(ck2, d, "small", "selftest2", only={"literal"}, jobs=8, selftest=corrupt)
     hits = [k for k in ck2.fails if k.startswith("C03:sibling:literal")]
